@@ -299,9 +299,9 @@ func (c *EvalCtx) binary(e EBin) EV {
 	case "==", "!=":
 		var r Term
 		switch {
-		case xt.Sort == SSlice && (y.T.S == "nil-slice" || x.T.S == "nil-slice"):
+		case xt.Sort == SSlice && (isNilSliceTerm(y.T) || isNilSliceTerm(x.T)):
 			s := xt
-			if x.T.S == "nil-slice" {
+			if isNilSliceTerm(x.T) {
 				s = yt
 			}
 			r = Eq(app(SInt, "s-arr", s), IntLit(0))
